@@ -1,5 +1,22 @@
-from .arena_common import main as _main
+"""C02: grammar-driven monitors of the arena campaign + the builder lab (histories of tree-builder operations)."""
+from ..report import Check
+from .. import campaign, lab
+from . import arena_common
 
 
 def main(tier):
-    _main("C02", tier)
+    def extra(chk: Check):
+        res = lab.run(tier, miri=(tier == "thorough"))
+        if res["status"] != "ok":
+            chk.note("builder_lab", res)
+            chk.inconclusive_because("builder lab: " + res["reason"])
+            return
+        chk.note("builder_lab", {k: v for k, v in res.items() if k != "mismatches"})
+        chk.evaluations += res["exhaustive_histories"] + res["random_histories"]
+        chk.nontrivial.update(("lab", i) for i in range(res["with_insert"] + res["with_truncate"]))
+        for m in res["mismatches"]:
+            kind = "token-sequence" if m["what"].startswith("C01") else ("panic" if "panics" in m["what"] else "tree")
+            chk.violation(f"lab:{kind}", "builder lab: " + m["what"], {"history": m["history"], "what": m["what"]})
+        if res.get("miri") and (res["miri"]["exit"] != 0 or res["miri"]["reports"]):
+            chk.violation("lab:miri", f"Miri reports on the tree builder: {res['miri']}", res["miri"])
+    arena_common.main("C02", tier, extra=extra)
